@@ -127,7 +127,7 @@ func descValue(v ssa.Value, depth int) string {
 	case *ssa.UnOp:
 		if x.Op == token.MUL {
 			if fa, ok := x.X.(*ssa.FieldAddr); ok {
-				return "field " + fieldName(fa)
+				return "field " + fieldPathDesc(fa, 0)
 			}
 			if g, ok := x.X.(*ssa.Global); ok {
 				return "global " + g.Name()
@@ -309,3 +309,25 @@ func orGuardSet(in ssa.Instruction) string {
 }
 
 var _ = types.Typ
+
+
+// fieldPathDesc: the field with the fields it is reached through, outermost
+// first: ab.a.groups -> "panos.rulesPair.a>panos.vsysInfo.groups".  The path
+// distinguishes the device side from the target side of a pair (a vs b).
+func fieldPathDesc(fa *ssa.FieldAddr, d int) string {
+	name := fieldName(fa)
+	if d > 2 {
+		return name
+	}
+	switch x := fa.X.(type) {
+	case *ssa.FieldAddr:
+		return fieldPathDesc(x, d+1) + ">" + name
+	case *ssa.UnOp:
+		if x.Op == token.MUL {
+			if fa2, ok := x.X.(*ssa.FieldAddr); ok {
+				return fieldPathDesc(fa2, d+1) + ">" + name
+			}
+		}
+	}
+	return name
+}
